@@ -1,14 +1,20 @@
 use crate::util::Run;
 
 pub mod c01;
+pub mod c02;
 pub mod c03;
+pub mod c11;
 pub mod c13;
+pub mod c14;
 
 pub fn dispatch(id: &str, run: &mut Run) -> bool {
     match id {
         "C01" => c01::run(run),
+        "C02" => c02::run(run),
         "C03" => c03::run(run),
+        "C11" => c11::run(run),
         "C13" => c13::run(run),
+        "C14" => c14::run(run),
         _ => return false,
     }
     true
